@@ -112,6 +112,10 @@ class _FuseReluClipBase(RewriteRuleClassBase, abc.ABC):
             if ir.convenience.get_const_tensor(m) is None:
                 return check_result.fail(f"{m.name} is not a constant.")
 
+        if first_clip_node.inputs[0].dtype is None:
+            # The fused bounds are created with the dtype of the Clip input.
+            return check_result.fail("The element type of the Clip input is not known.")
+
         return check_result
 
 
